@@ -119,5 +119,36 @@ impl<M: MovingAverageConstructor> AverageDirectionalIndexInstance<M> {
 	}
 //@end
 }
+
+// ---- C08 at indicator level (averaging kinds that cannot overshoot, ordered candle): ADX on a repeated candle: +DI = -DI = ADX = 0
+impl<M: MovingAverageConstructor> AverageDirectionalIndexInstance<M> {
+	pub open spec fn const_state(&self, h: HLC) -> bool {
+		let d = h.high@ - h.low@;
+		&&& self.inv() && h.low@ <= h.close@ <= h.high@ && self.prev_close == h.close
+		&&& self.tr_ma.convex() && self.plus_di.convex() && self.minus_di.convex() && self.ma2.convex()
+		&&& self.tr_ma.within(d, d) && self.plus_di.within(0real, 0real) && self.minus_di.within(0real, 0real) && self.ma2.within(0real, 0real)
+		&&& forall|i: int| 0 <= i < self.window.view().len() ==> (#[trigger] self.window.view()[i]).high == h.high && self.window.view()[i].low == h.low
+	}
+}
+pub proof fn adx_const_step<M: MovingAverageConstructor>(pre: &AverageDirectionalIndexInstance<M>, mid: &AverageDirectionalIndexInstance<M>, post: &AverageDirectionalIndexInstance<M>, h: HLC,
+	plus: real, minus: real, adx: ValueType, tr: ValueType, atr: ValueType, pdm: ValueType, mdm: ValueType, pdi: ValueType, mdi: ValueType, t: ValueType)
+	requires pre.const_state(h), mid.inv(), post.inv(), dir_mov_step(pre, h, mid, plus, minus, tr, atr, pdm, mdm, pdi, mdi), adx_step(mid, plus, minus, post, adx, t)
+	ensures plus == 0real, minus == 0real, adx@ == 0real, post.const_state(h)
+{
+	let d = h.high@ - h.low@;
+	assert(tr@ == d);
+	<M::Instance as MovingAverage>::lemma_within_step(&pre.tr_ma, &tr, &mid.tr_ma, &atr, d, d);
+	assert(pre.window.view()[0].high == h.high && pre.window.view()[0].low == h.low);
+	if atr@ != 0real {
+		<M::Instance as MovingAverage>::lemma_within_step(&pre.plus_di, &pdm, &mid.plus_di, &pdi, 0real, 0real);
+		<M::Instance as MovingAverage>::lemma_within_step(&pre.minus_di, &mdm, &mid.minus_di, &mdi, 0real, 0real);
+		assert(0real / atr@ == 0real) by(nonlinear_arith) requires atr@ != 0real;
+	}
+	<M::Instance as MovingAverage>::lemma_within_step(&mid.ma2, &t, &post.ma2, &adx, 0real, 0real);
+	let w = post.window.view();
+	assert forall|i: int| 0 <= i < w.len() implies (#[trigger] w[i]).high == h.high && w[i].low == h.low by {
+		if i < w.len() - 1 { assert(w[i] == pre.window.view()[i + 1]); }
+	}
+}
 } // verus!
 fn main() {}
